@@ -10,5 +10,5 @@ CONSTANTS
 SPECIFICATION TSpec
 CONSTRAINT Progress
 POSTCONDITION Accepted
-INVARIANTS EveryEnabledGetsOne OldHandlerChained OneShotAtMostOnce DispositionRestored DispositionStatement SubsMatch CtxConsistent
+INVARIANTS DispositionRestored DispositionStatement SubsMatch CtxConsistent
 CHECK_DEADLOCK FALSE
